@@ -2,7 +2,9 @@ package c07
 
 import (
 	"fmt"
+	"runtime"
 	"sync"
+	"sync/atomic"
 	"testing"
 	"time"
 
@@ -84,4 +86,93 @@ func TestNumberingStress(t *testing.T) {
 			w.Teardown()
 		}
 	})
+}
+
+// TestAddFeatureStress: the two ways a feature of one type and role gets onto an entity at the same
+// moment - the application attaching a feature it built itself (AddFeature: "if it is not already
+// added") and callers asking for the feature (GetOrAddFeature). Whatever the interleaving, the
+// entity ends up with one feature of that type and role, and everybody who asked for it, then or
+// later, gets that one.
+func TestAddFeatureStress(t *testing.T) {
+	rounds := world.EnvInt("VERIF_ROUNDS", 2000)
+	w := world.New()
+	defer w.Teardown()
+	const adders, askers = 4, 4
+	overlaps := 0
+	world.Guard(func() {
+		for r := 0; r < rounds; r++ {
+			ent := spine.NewEntityLocal(w.Local, model.EntityTypeTypeCEM, spine.NewAddressEntityType([]uint{uint(r + 10)}), 0)
+			ft, role := model.FeatureTypeTypeMeasurement, model.RoleTypeServer
+			if r%3 == 1 {
+				// the entity has other features already
+				ent.AddFeature(spine.NewFeatureLocal(ent.NextFeatureId(), ent, model.FeatureTypeTypeLoadControl, model.RoleTypeServer))
+				ent.AddFeature(spine.NewFeatureLocal(ent.NextFeatureId(), ent, ft, model.RoleTypeClient))
+			}
+			pre := len(ent.Features())
+			built := make([]api.FeatureLocalInterface, adders)
+			for i := range built {
+				built[i] = spine.NewFeatureLocal(ent.NextFeatureId(), ent, ft, role)
+			}
+			got := make([]api.FeatureLocalInterface, askers)
+			var wg sync.WaitGroup
+			wg.Add(adders + askers)
+			var arrived atomic.Int32 // spinning rendezvous: all callers leave it within nanoseconds
+			var stamps [adders + askers][2]uint64
+			for i := 0; i < adders+askers; i++ {
+				i := i
+				go func() {
+					defer wg.Done()
+					arrived.Add(1)
+					for spins := 0; arrived.Load() < adders+askers; spins++ {
+						if spins > 1<<16 {
+							runtime.Gosched() // (fewer free cores than callers)
+						}
+					}
+					stamps[i][0] = world.Stamp()
+					if i < adders {
+						ent.AddFeature(built[i])
+					} else {
+						got[i-adders] = ent.GetOrAddFeature(ft, role)
+					}
+					stamps[i][1] = world.Stamp()
+				}()
+			}
+			world.WaitOrDiagnose(t, &wg, "C07/concurrent", "concurrent AddFeature and GetOrAddFeature calls")
+			overlapped := false
+			for i := range stamps {
+				for j := range stamps {
+					if i != j && stamps[i][0] < stamps[j][1] && stamps[j][0] < stamps[i][1] {
+						overlapped = true
+					}
+				}
+			}
+			if overlapped {
+				overlaps++
+			}
+			n := 0
+			var render string
+			for _, f := range ent.Features() {
+				if f.Type() == ft && f.Role() == role {
+					n++
+				}
+				render += fmt.Sprintf("\n   feature %d %s/%s (%p)", *f.Address().Feature, f.Type(), f.Role(), f)
+			}
+			how := fmt.Sprintf("round %d: %d AddFeature and %d GetOrAddFeature calls for %s/%s at the same moment", r, adders, askers, ft, role)
+			if n != 1 || len(ent.Features()) != pre+1 {
+				world.Fail(t, "C07/concurrent/duplicate-feature/add-feature", "%s: the entity holds %d features of that type and role (%d features in all, %d before)%s", how, n, len(ent.Features()), pre, render)
+			}
+			now := ent.FeatureOfTypeAndRole(ft, role)
+			for i, f := range got {
+				if f == nil || !same(f, now) {
+					world.Fail(t, "C07/concurrent/different-feature-returned/add-feature", "%s: asker %d got %p, a lookup afterwards yields %p%s", how, i+1, f, now, render)
+				}
+			}
+			if again := ent.GetOrAddFeature(ft, role); !same(again, now) {
+				world.Fail(t, "C07/concurrent/lookup-differs/add-feature", "%s: GetOrAddFeature afterwards yields another feature than the lookup%s", how, render)
+			}
+			world.Record(world.Hash("add-feature-stress", r%3, overlapped), overlapped, "stress/add-feature")
+		}
+	})
+	world.SetExtra("add_feature_stress_rounds", rounds)
+	world.SetExtra("add_feature_stress_rounds_with_overlapping_calls", overlaps)
 }
